@@ -179,6 +179,29 @@ def udp_noise(rng, n=4, i=0, v6=False, port=None, payloads=None):
     return Flow("noise", ep, items)
 
 
+def link_noise(rng, n=3, i=0):
+    """frames every real capture holds next to the TLS/QUIC traffic: ARP, LLDP (non-IP), ICMP echo, ICMPv6 neighbour solicitation, IGMP-like IP protocol 2"""
+    import struct
+    ep = tcpcap.default_ep(230 + i, False, 443)
+    ep6 = tcpcap.default_ep(230 + i, True, 443)
+    items = []
+    for k in range(n):
+        kind = rng.choice(["arp", "arp", "lldp", "icmp", "icmp6", "igmp"])
+        if kind == "arp":
+            body = struct.pack("!HHBBH", 1, 0x0800, 6, 4, rng.choice([1, 2])) + ep.cmac + ep.cip + (bytes(6) if k % 2 == 0 else ep.smac) + ep.sip
+            fr = b"\xff" * 6 + ep.cmac + b"\x08\x06" + body + bytes(18)
+        elif kind == "lldp":
+            fr = bytes.fromhex("0180c200000e") + ep.smac + b"\x88\xcc" + rng.randbytes(rng.randrange(20, 80))
+        elif kind == "icmp":
+            fr = ns.eth_frame(ep.cmac, ep.smac, ns.ip_packet(ep.cip, ep.sip, 1, b"\x08\x00" + rng.randbytes(rng.randrange(6, 60))))
+        elif kind == "icmp6":
+            fr = ns.eth_frame(ep6.cmac, ep6.smac, ns.ip_packet(ep6.cip, ep6.sip, 58, b"\x87\x00" + rng.randbytes(22)))
+        else:
+            fr = ns.eth_frame(ep.cmac, ep.smac, ns.ip_packet(ep.cip, ep.sip, 2, rng.randbytes(8)))
+        items.append(Item(fr, dir="c", tag="link-noise"))
+    return Flow("noise", ep, items)
+
+
 def udp_frame(ep, d, payload, bad_csum=False):
     if d == "c":
         u = ns.udp_datagram(ep.cip, ep.sip, ep.cport, ep.sport, payload, bad_csum=bad_csum)
